@@ -1,13 +1,26 @@
 """C40 - interruption records are complete and uniquely numbered.
 
-Carriers: bluesky/bundlers.py: RunBundler.open_run, record_interruption, rewind, close_run; the three call sites in
-bluesky/run_engine.py (_request_pause_coro, resume, _start_suspender).
-Clauses: recording enabled and run open => record_interruption emits exactly one event in the 'interruptions' stream
-carrying the stream's next seq_num (own number, also across a rewind); otherwise nothing is emitted; with recording
-disabled open_run creates no 'interruptions' descriptor; the RunStop counts them; every pause / resume / suspension
-calls record_interruption exactly once per open run (structural obligation on the call sites).
+Carriers: bluesky/bundlers.py: RunBundler.open_run, record_interruption, rewind, close_run, monitor, _describe_collect (+ _prepare_stream,
+_ensure_cached); bluesky/run_engine.py: request_pause / _request_pause_coro, _pause, _checkpoint, resume, _rewind, request_suspend,
+_start_suspender, _run, _open_run, _close_run (and the rest of the lifecycle code the T2 harness executes).
+
+Clauses, from the statement:
+  B1  (bundler) recording enabled and run open: record_interruption emits exactly one event in the 'interruptions' stream carrying the
+      stream's next seq_num - for an arbitrary number of earlier records, with or without a checkpoint since the stream was made, with or
+      without a bundle open, across a rewind (own number: a record is never renumbered), and it does not raise; with recording disabled nothing
+      is emitted and open_run creates no 'interruptions' descriptor; the RunStop counts the records
+  B2  (bundler, frame) the 'interruptions' stream stays registered as never replayed while other never-replayed streams are registered
+      (monitor, classic flyers' describe_collect executed; the remaining writers of the registry checked structurally: it is only ever grown)
+  E1  (engine, over arbitrary plans and schedules - replay/c40_clause.py) every pause (the engine enters 'pausing'), resume (it leaves 'paused'
+      for 'running') and suspension (a '_start_suspender' message is executed) that happens while a run is open is recorded in that run - in
+      every open run, with the suspension's justification - by the time the engine goes on, and
+  E2  a run holds no other record: none twice, none for a pause that was only asked for (deferred), none for a suspension that was only
+      requested, none in a run that is not open; at close_run (where the RunStop counts the stream) and when the blocking call returns
+      the records of a run are exactly the interruptions that happened while it was open
+  E3  a run records interruptions iff the engine's record_interruptions is set when it is opened
 """
-import ast
+import itertools
+import os
 
 from .lib import *
 from .bundler_lib import *
@@ -15,8 +28,8 @@ from .bundler_lib import *
 PROP = "C40"
 Q = f"{MB}:RunBundler"
 RE = "bluesky.run_engine:RunEngine"
-TRUSTED = EM_ASSUMPTIONS
-NOT_DECIDED = "that every pause/suspension/resume path of the RunEngine reaches the call sites (T2: C08, C11)"
+NOT_DECIDED = ("Pausable devices (their pause() / resume() hooks are not modelled); SIGINT handling; collect paths other than a classic flyer's "
+               "_describe_collect are covered for B2 by the structural frame obligation only; wall-clock timestamps of the records")
 
 
 @task("open_run", PROP, functions=[f"{Q}.open_run", f"{Q}.__init__"],
@@ -36,10 +49,41 @@ def open_run(I):
             ok and env.emitted[0][1]["uid"] == uid and b.run_is_open is True, {"replay": "bundler.rewind"})
 
 
-@task("record_interruption", PROP, functions=[f"{Q}.record_interruption", f"{Q}.rewind", f"{Q}.close_run"],
-      expect=[f"{Q}.record_interruption#ensures[exactly one interruptions event with the stream's next number when recording]",
-              f"{Q}.record_interruption#ensures[nothing emitted when recording is disabled]",
-              f"{Q}.close_run#ensures[RunStop counts the interruption records]"])
+REC_NEXT = f"{Q}.record_interruption#ensures[exactly one interruptions event with the stream's next number when recording]"
+REC_OFF = f"{Q}.record_interruption#ensures[nothing emitted when recording is disabled]"
+REC_STOP = f"{Q}.close_run#ensures[RunStop counts the interruption records]"
+FRAME = f"{Q}#frame[the 'interruptions' stream stays registered as never replayed while other never-replayed streams (monitors, flyers) are added]"
+
+
+def _never_replayed_op(I, w, b, op):
+    """run the real method that registers another never-replayed stream on the opened bundler"""
+    w.stubs[(MB, "check_supports")] = native(lambda I_, a, k: a[0])
+    w.stubs[(MB, "maybe_await")] = native(lambda I_, a, k: Ready(a[0]))
+    w.stubs[(MB, "maybe_update_hints")] = native(lambda I_, a, k: None)
+    w.stubs["asyncio.gather"] = lambda I_, a, k: Ready([run_coro(I_, c) if isinstance(c, GenObj) else c for c in a])
+    w.stubs["itertools.combinations"] = lambda I_, a, k: list(itertools.combinations(list(a[0]), a[1]))      # (concrete list of pairs)
+    if op == "monitor":
+        sig = Opaque("sig", {"token": "dev", "attrs": {"name": "sig", "hints": {}}, "truth": True,
+                             "isinstance": {"Subscribable": True, "Readable": True, "Configurable": False}, "isinstance_default": False, "hasattr": {"hints": False},
+                             "methods": {"subscribe": lambda I_, o, a, k: None, "clear_sub": lambda I_, o, a, k: None,
+                                         "describe": lambda I_, o, a, k: {"sig": {"dtype": "number", "shape": [], "source": "s"}}}})
+        r = call_async(I, I.getattr(b, "monitor"), MsgVal("monitor", sig, (), {"name": "mon"}, None))
+    elif op == "describe_collect":
+        # a classic flyer (describe_collect names its streams itself): its streams are described at the first collect
+        fly = Opaque("fly", {"token": "dev", "attrs": {"name": "fly", "hints": {}}, "truth": True, "isinstance_default": False,
+                             "isinstance": {"Collectable": True, "Flyable": True, "Configurable": False}, "hasattr": {"hints": False},
+                             "methods": {"describe_collect": lambda I_, o, a, k: {"flystream": {"fx": {"dtype": "number", "shape": [], "source": "fly"}}},
+                                         "read_configuration": lambda I_, o, a, k: {}, "describe_configuration": lambda I_, o, a, k: {}}})
+        r = call_async(I, I.getattr(b, "_describe_collect"), fly)
+    else:
+        return
+    if r[0] != "ok":
+        raise EngineError(f"{op} failed in harness: {r[1]!r} {getattr(r[1], 'attrs', None)}")
+
+
+@task("record_interruption", PROP, functions=[f"{Q}.record_interruption", f"{Q}.rewind", f"{Q}.close_run", f"{Q}.monitor", f"{Q}._describe_collect",
+                                              f"{Q}._prepare_stream", f"{Q}._ensure_cached"],
+      expect=[REC_NEXT, REC_OFF, REC_STOP, FRAME])
 def record_interruption(I):
     w = I.w
     env = Env(I)
@@ -48,56 +92,172 @@ def record_interruption(I):
     if not rec:
         env.emitted.clear()
         call_method(I, b, "record_interruption", "pause")
-        w.check(f"{Q}.record_interruption#ensures[nothing emitted when recording is disabled]",
-                len(env.emitted) == 0 and "interruptions" not in b._sequence_counters, {"replay": "bundler.rewind"})
+        w.check(REC_OFF, len(env.emitted) == 0 and "interruptions" not in b._sequence_counters, {"replay": "bundler.rewind"})
         return
     desc = [d for n, d in env.emitted if n == "descriptor"][0]
-    # arbitrary state: k records so far, some checkpoint in the past
+    # what happened in the run before: nothing / a monitor was started / a classic flyer was described (both add a never-replayed stream)
+    op = w.choose(["nothing", "monitor", "describe_collect"], "before")
+    _never_replayed_op(I, w, b, op)
+    info = {"replay": "bundler.interruptions", "before": op}
+    w.check(FRAME, "interruptions" in b._unreplayed_streams, info)
+    # arbitrary state: n - 1 records so far, some checkpoint in the past (or none since the stream was made)
     n = w.int("next_interruptions")
     c = w.int("snap_interruptions")
     w.add(And(n >= 1, c >= 1, c <= n))
     b._sequence_counters["interruptions"] = n
     has_snap = w.choose([True, False], "snapshot holds the stream")
+    info["checkpoint"] = has_snap
     if has_snap:
         b._sequence_counters_copy["interruptions"] = c
     else:
         b._sequence_counters_copy.pop("interruptions", None)
+    # the interruption may land between a 'create' and its 'save' (the rewind cancels the open bundle)
+    info["bundling"] = b.attrs["bundling"] = w.choose([False, True], "bundle open")
     env.emitted.clear()
-    call_method(I, b, "record_interruption", "pause")
+    r1 = catch(I, I.getattr(b, "record_interruption"), "pause")
     call_method(I, b, "rewind")                           # resume: the record must not be renumbered
-    call_method(I, b, "record_interruption", "resume")
+    r2 = catch(I, I.getattr(b, "record_interruption"), "resume")
     evs = events(env)
-    ok = len(evs) == 2 and len(env.emitted) == 2 and all(e["descriptor"] == desc["uid"] for e in evs)
-    w.check(f"{Q}.record_interruption#ensures[exactly one interruptions event with the stream's next number when recording]",
-            And(ok, *([Eq(evs[0]["seq_num"], n), Eq(evs[1]["seq_num"], n + 1), evs[0]["data"] == {"interruption": "pause"},
-                       evs[1]["data"] == {"interruption": "resume"}] if ok else [False])), {"replay": "bundler.rewind"})
+    ok = r1[0] == r2[0] == "ok" and len(evs) == 2 and len(env.emitted) == 2 and all(e["descriptor"] == desc["uid"] for e in evs)
+    w.check(REC_NEXT, And(ok, *([Eq(evs[0]["seq_num"], n), Eq(evs[1]["seq_num"], n + 1), evs[0]["data"] == {"interruption": "pause"},
+                                 evs[1]["data"] == {"interruption": "resume"}] if ok else [False])), info)
     env.emitted.clear()
     r = call_async(I, I.getattr(b, "close_run"), MsgVal("close_run", None, (), {}, None))
     stops = [d for nm, d in env.emitted if nm == "stop"]
-    w.check(f"{Q}.close_run#ensures[RunStop counts the interruption records]",
-            And(r[0] == "ok" and len(stops) == 1, Eq(stops[0]["num_events"]["interruptions"], n + 1) if stops else False), {"replay": "bundler.rewind"})
+    cnt = stops[0]["num_events"].get("interruptions") if stops else None
+    w.check(REC_STOP, And(r[0] == "ok" and len(stops) == 1 and cnt is not None, Eq(cnt, n + 1) if cnt is not None else False), info)
 
 
-@task("call_sites", PROP, functions=[f"{RE}._request_pause_coro", f"{RE}.resume", f"{RE}._start_suspender"],
-      expect=[f"{RE}#ensures[pause, resume and suspension each record one interruption per open run]"])
-def call_sites(I):
+FRAME_ALL = f"{Q}#frame[structural: the registry of never-replayed streams is created in __init__ and afterwards only grown (add) or read]"
+
+
+@task("never_replayed.frame", PROP, functions=[Q], expect=[FRAME_ALL])
+def never_replayed_frame(I):
+    """B2 for the writers the task above does not execute (collect's tails ...): every use of `_unreplayed_streams` in RunBundler is the
+    initialisation in __init__, a call of .add, or a read (membership test, iteration, set algebra on the right-hand side)"""
+    import ast
+    m, chain, node = I.P.find_function(Q)
+    parents = {}
+    for n in ast.walk(node):
+        for ch in ast.iter_child_nodes(n):
+            parents[ch] = n
+
+    def func_of(n):
+        while n in parents:
+            n = parents[n]
+            if isinstance(n, (ast.FunctionDef, ast.AsyncFunctionDef)):
+                return n.name
+        return None
+    bad, uses = [], 0
+    for n in ast.walk(node):
+        if isinstance(n, ast.Attribute) and n.attr == "_unreplayed_streams":
+            uses += 1
+            p = parents.get(n)
+            if isinstance(n.ctx, (ast.Store, ast.Del)):
+                ok = func_of(n) == "__init__" and isinstance(p, (ast.Assign, ast.AnnAssign)) and ast.unparse(p.value) == "set()"
+            elif isinstance(p, ast.Attribute):            # a method of the set: only add
+                ok = p.attr == "add" and isinstance(parents.get(p), ast.Call) and parents[p].func is p
+            elif isinstance(p, ast.AugAssign):
+                ok = False                                 # (`|=` would do, but `-=` / `&=` shrink it: none of them is used)
+            else:                                         # a read: comparison operand, iteration, operand of a set expression, argument
+                ok = isinstance(p, (ast.Compare, ast.comprehension, ast.BinOp, ast.For, ast.Call))
+                if isinstance(p, ast.Call):
+                    ok = isinstance(p.func, ast.Name) and p.func.id in ("set", "frozenset", "sorted", "list", "len", "tuple")
+            if not ok:
+                bad.append((func_of(n), n.lineno))
+    I.w.check(FRAME_ALL, uses > 0 and not bad, {"bad": bad})
+
+
+@task("twin.renumbered", PROP, functions=[f"{Q}.record_interruption", f"{Q}.rewind"], twin="twin:a rewind takes the interruption numbering back to the checkpoint")
+def twin_renumbered(I):
     w = I.w
-    want = {"_request_pause_coro": '"pause"', "resume": '"resume"', "_start_suspender": None}
-    ok = True
-    for fn, label in want.items():
-        m, chain, node = I.P.find_function(f"{RE}.{fn}")
-        loops = [n for n in ast.walk(node) if isinstance(n, ast.For) and ast.unparse(n.iter) == "self._run_bundlers.values()"]
-        hits = []
-        for lp in loops:
-            calls = [c for c in ast.walk(lp) if isinstance(c, ast.Call) and ast.unparse(c.func).endswith(".record_interruption")]
-            # exactly one unconditional call per iteration (other statements in the loop body are allowed)
-            top_level = [st for st in lp.body if isinstance(st, ast.Expr) and isinstance(st.value, ast.Call)
-                         and ast.unparse(st.value.func) == f"{ast.unparse(lp.target)}.record_interruption"]
-            if len(calls) == 1 and len(top_level) == 1 and top_level[0].value is calls[0]:
-                hits.append(calls[0])
-        total = [c for c in ast.walk(node) if isinstance(c, ast.Call) and ast.unparse(c.func).endswith(".record_interruption")]
-        good = len(hits) == 1 and len(total) == 1
-        if good and label is not None:
-            good = ast.unparse(hits[0].args[0]).replace("'", '"') == label
-        ok = ok and good
-    w.check(f"{RE}#ensures[pause, resume and suspension each record one interruption per open run]", ok)
+    env = Env(I)
+    b, uid = opened_bundler(I, env, record_interruptions=True)
+    n, c = w.int("next_interruptions"), w.int("snap_interruptions")
+    w.add(And(n >= 1, c >= 1, c <= n))
+    b._sequence_counters["interruptions"], b._sequence_counters_copy["interruptions"] = n, c
+    env.emitted.clear()
+    call_method(I, b, "record_interruption", "pause")
+    call_method(I, b, "rewind")
+    call_method(I, b, "record_interruption", "resume")
+    evs = events(env)
+    w.check("twin:a rewind takes the interruption numbering back to the checkpoint", And(len(evs) == 2, Eq(evs[1]["seq_num"], c) if len(evs) == 2 else False))
+
+
+# ---------------------------------------------------------------------------------------------------------------------------------
+# T2: the real RunEngine (request_pause / _request_pause_coro, _pause, _checkpoint, resume, request_suspend, _start_suspender, _run,
+# _open_run / _close_run) executed symbolically under the asyncio model with an arbitrary plan and an environment that requests immediate and
+# deferred pauses and suspensions at every step of the loop; the clause is replay/c40_clause.py, the ghost monitor contracts/run_mon5.py
+from .t2 import *                                   # noqa: E402
+from .run_mon5 import c40_checks, R_MISSING, R_EXTRA, R_FLAG      # noqa: E402
+
+TRUSTED = EM_ASSUMPTIONS + TRUSTED_T2 + [
+    "A-ENV: in each T2 scenario another thread makes at most `max_requests` (2; 3 in one thorough scenario) pause / suspension requests per call, at most "
+    "`max_inflight` of them in flight at a time, none while `max_depth` or more plans are stacked; a plan opens at most two runs; the plan's alphabet and "
+    "the decisions at the prompt of a paused engine are those of the scenario (listed in the task names)",
+    "the abstract run bundler of the T2 tasks stands for RunBundler under B1 / B2: each record_interruption call on an open recording run is one event "
+    "of its 'interruptions' stream with its own seq_num, counted by the RunStop",
+    "E1 / E2 use the definitions of replay/c40_clause.py for when an interruption happens and by when its record is due",
+]
+THOROUGH = os.environ.get("VERIF_TIER") == "thorough"
+REC = {"re_attrs": {"record_interruptions": True}}
+# most scenarios: a plan that neither raises nor catches what is thrown into it, and resume / abort as the decisions at the prompt of a
+# paused engine (the plan-message scenario and the pause / stop scenario keep the defaults: every decision, plans that raise and catch)
+LEAN = dict(REC, can_raise=False, handles=False, post_pause=("resume", "abort"), max_requests=2)
+PAUSE, RESUME, SUSP = "C40:pause with a run open", "C40:resume with a run open", "C40:suspension with a run open"
+T2_SCENARIOS = [
+    # immediate and deferred pauses requested by another thread, checkpoints in between
+    ("open_run,checkpoint,null", "pause,pause_defer", dict(LEAN), [PAUSE, RESUME, "C40:deferred pause takes effect with a run open"]),
+    # pauses asked for by the plan itself (Msg('pause', defer=...)), runs opened and closed by the plan
+    ("open_run,close_run,checkpoint,pause,pause_defer", "", dict(REC), [PAUSE, RESUME]),
+    # pauses / suspensions in a non-resumable section (they end the run instead)
+    ("open_run,clear_checkpoint,checkpoint", "pause", dict(LEAN), [PAUSE, "C40:interruption in a non-resumable section with a run open"]),
+    ("open_run,clear_checkpoint,checkpoint", "suspend", dict(LEAN), [SUSP]),
+    # a device whose stop() is asynchronous: requests land inside the engine's own clean-up at a pause / a suspension / the end of the plan
+    ("open_run,set_async", "pause,suspend", dict(LEAN), [PAUSE, RESUME, SUSP]),
+    # two runs open at the same time: each holds its own records
+    ("open_run,open_run_b,checkpoint", "pause,suspend", dict(LEAN), [PAUSE, RESUME, SUSP, "C40:interruption with two runs open"]),
+    # a pause while the plan is suspended / a suspension on top of a suspension (justification given)
+    ("open_run,null", "suspend,pause", dict(LEAN, max_depth=4, suspend_plans=True), [PAUSE, RESUME, SUSP]),
+    # a deferred pause and a suspension in the same call
+    ("open_run,checkpoint,null", "pause_defer,suspend", dict(LEAN), [PAUSE, RESUME, SUSP]),
+    # a suspension requested while the engine sits paused: it is queued and carried out after resume()
+    ("open_run,checkpoint,null", "pause", dict(LEAN, paused_env="suspend"),
+     [PAUSE, RESUME, SUSP, "C40:suspension requested while paused is carried out with a run open"]),
+    # suspensions with pre / post plans and a justification; without a justification
+    ("open_run,close_run,null,checkpoint", "suspend", dict(LEAN, suspend_plans=True), [SUSP]),
+    ("open_run,null,checkpoint", "suspend", dict(REC, can_raise=False, max_requests=2), [SUSP]),
+    # a pause racing a stop request; stop / halt / abort from the paused state
+    ("open_run,checkpoint", "pause,stop", dict(REC, max_requests=2), [PAUSE, RESUME]),
+    # recording disabled
+    ("open_run,checkpoint", "pause", dict(max_requests=1), []),
+]
+if THOROUGH:
+    T2_SCENARIOS += [
+        ("open_run,checkpoint,custom", "pause,pause_defer", dict(REC, max_requests=2), [PAUSE, RESUME]),
+        ("open_run,close_run,custom,checkpoint", "suspend", dict(REC, suspend_plans=True, max_requests=2), [SUSP]),
+        ("open_run,open_run_b,close_run,checkpoint", "pause,suspend", dict(REC, max_requests=2), [PAUSE, RESUME, SUSP]),
+        ("open_run,clear_checkpoint,checkpoint,custom", "pause,suspend", dict(REC, max_requests=2), [PAUSE, SUSP]),
+        ("open_run,set_async,checkpoint", "pause,suspend", dict(REC, max_requests=2), [PAUSE, RESUME, SUSP]),
+        ("open_run,checkpoint", "pause,suspend", dict(REC, max_requests=2, max_inflight=2), [PAUSE, RESUME, SUSP]),
+        ("open_run,checkpoint,null", "pause,pause_defer", dict(LEAN, max_requests=3), [PAUSE, RESUME]),
+    ]
+for _m, _e, _o, _c in T2_SCENARIOS:
+    t2_tasks(PROP, "interruptions", [(_m, _e, _o)], [c40_checks], expect=[R_FLAG] + ([R_MISSING, R_EXTRA] if _o.get("re_attrs") else []), covers=_c)
+
+
+def _twin(sc, tr):
+    n = {"asked": 0, "recorded": 0}
+
+    def check(kind, *a):
+        if kind == "request" and a[0] in ("pause", "pause_defer"):
+            n["asked"] += 1
+        elif kind == "record_interruption" and a[1] == "pause":
+            n["recorded"] += 1
+        elif kind == "returned" and a[0] == "__call__" and sc.eng.state == "idle":
+            sc.w.check("twin:every pause that was asked for is recorded, deferred ones included", n["recorded"] >= n["asked"])
+    tr.checks.append(check)
+
+
+t2_tasks(PROP, "twin", [("open_run,checkpoint", "pause_defer", dict(REC, max_requests=1, can_raise=False, handles=False))], [_twin],
+         twin="twin:every pause that was asked for is recorded, deferred ones included")
